@@ -165,7 +165,7 @@ def dir_check(pid, kinds, nontrivial, rule, cfg_policy="alt", extra_quick_cfgs=(
         cfgs = thorough_cfgs or ["MCDirectory_quick.cfg", "MCDirectory_empty.cfg", "MCDirectory_other.cfg", "MCDirectory_thorough.cfg", "MCDirectory_deep.cfg"]
         sim = f"num=60 -depth 24 -seed {chk.seed}"
     exported = export_behaviours(chk, cfgs, simulate=sim)
-    bs = make_behaviours(chk, exported, kinds, cfg_policy="both" if chk.tier == "thorough" else cfg_policy, stutters=1500 if chk.tier == "quick" else 12000)
+    bs = make_behaviours(chk, exported, kinds, cfg_policy="both" if chk.tier == "thorough" else cfg_policy, stutters=1500 if chk.tier == "quick" else 6000)
     if with_long:
         for b in long_histories(kinds):
             bs.append(dict(b, id=len(bs) + 1))
@@ -305,7 +305,7 @@ def c14():
     rnd = random.Random(chk.seed)
     # prefer behaviours that reach epoch 3 with updates
     rich = [x for x in exported if sum(1 for st in x[2] if st["op"] == "publish") >= 3]
-    nh = 120 if chk.tier == "quick" else 600
+    nh = 120 if chk.tier == "quick" else 300
     hist = rnd.sample(rich, min(nh, len(rich)))
     if chk.tier == "quick":
         cells = QUICK_CELLS
